@@ -175,6 +175,11 @@ def stateful(ctx):
             dummy = round(rng.uniform(0.2, 0.8), 3)
             shx.fvars.set_free_variables(nfv0 + extra, dummy)
             fv_ext = list(fv) + [dummy] * (nfv0 + extra - len(fv))
+            # ... and each of them gets its own value afterwards
+            for mm in range(nfv0 + 1, nfv0 + extra + 1):
+                v_ = round(rng.uniform(0.05, 0.95), 3)
+                shx.fvars.fvars[mm - 1].fvar_value = v_
+                fv_ext[mm - 1] = v_
             for mm in range(nfv0 + 1, nfv0 + extra + 1):
                 for sign in (1, -1):
                     code = sign * (10 * mm + 0.5)
@@ -186,6 +191,14 @@ def stateful(ctx):
                         common.add_violation(ctx, 'the occupancy of an atom tied to a free variable that was added with set_free_variables() does not follow the rule',
                                              dict(case, free_variable=mm, value=dummy, code=code), exp, a_new.occupancy)
                         break
+            # the exact formula as text states the same sums (two decimals)
+            import re as _re
+            d_ = dict((key.upper(), v) for key, v in shx.sum_formula_exact_as_dict().items())
+            txt = shx.sum_formula_exact
+            parsed = dict((e.upper(), float(v.replace(',', '') or 1)) for e, v in _re.findall(r'([A-Za-z]+)([0-9.,eE+-]*)', txt))
+            ev += 1
+            if set(parsed) != set(d_) or any(abs(parsed[e] - round(d_[e], 2)) > 5.1e-3 for e in d_):
+                common.add_violation(ctx, 'the exact sum formula as text differs from the sums of the occupancies', dict(case, text_formula=txt), {e: round(v, 2) for e, v in d_.items()}, parsed)
             # an atom added through the API sits behind the Q-peaks in the atom list
             el = rng.randrange(len(ELEMS))
             now = dict((key.upper(), v) for key, v in shx.sum_formula_exact_as_dict().items())
@@ -195,6 +208,31 @@ def stateful(ctx):
             if abs(after[ELEMS[el].upper()] - now[ELEMS[el].upper()] - 0.5) > 1e-9:
                 common.add_violation(ctx, 'an atom that is not a Q-peak (added behind the Q-peak list) is left out of the exact sum formula',
                                      dict(case, element=ELEMS[el]), now[ELEMS[el].upper()] + 0.5, after[ELEMS[el].upper()])
+    # the text of the exact formula for sums that are whole numbers ending in zero, large sums and small fractions
+    import re as _re
+    for k in range(12 if ctx.thorough() else 4):
+        fvs = ['1.0', '0.6', '0.5']
+        counts = [rng.choice([10, 20, 30, 100, 110, 1200 if ctx.thorough() else 200]), rng.choice([10, 40, 7, 101]), rng.choice([1, 2, 10])]
+        atoms = []
+        for e, n in enumerate(counts[:len(ELEMS)]):
+            if e == 1 and n % 2 == 0:
+                atoms += [(e, '21.0', False), (e, '-21.0', False)] * n          # pairs that sum to one
+            elif e == 2:
+                atoms += [(e, '30.5', False)] * (4 * n)                         # 4 * 0.5 * 0.5 = 1
+            else:
+                atoms += [(e, '11.0', False)] * n
+        text, unit, z = build_file(rng, fvs, atoms)
+        shx = read(text)
+        d_ = dict((key.upper(), v) for key, v in shx.sum_formula_exact_as_dict().items())
+        txt = shx.sum_formula_exact
+        parsed = dict((e.upper(), float(v.replace(',', '') or 1)) for e, v in _re.findall(r'([A-Za-z]+)([0-9.,eE+-]*)', txt))
+        exp = dict((ELEMS[e].upper(), float(n)) for e, n in enumerate(counts[:len(ELEMS)]))
+        ev += 1
+        if any(abs(d_.get(e, 0) - exp[e]) > 1e-6 for e in exp):
+            common.add_violation(ctx, 'the exact sum formula is not the sum of the occupancies', {'text': text}, exp, d_)
+        elif set(parsed) != set(d_) or any(abs(parsed[e] - round(d_[e], 2)) > 5.1e-3 for e in d_):
+            common.add_violation(ctx, 'the exact sum formula as text differs from the sums of the occupancies', {'text': text, 'text_formula': txt},
+                                 {e: round(v, 2) for e, v in d_.items()}, parsed)
     return ev
 
 
